@@ -40,7 +40,8 @@ def rand_override(rng, k, Rs):
     at = [None if rng.random() < 0.5 else
           ((0.0, 0.0) if rng.random() < 0.4 else (float(rng.choice([0.5, 1, 2.5, 4, 4.5, 8])), float(rng.choice([0.1, 1, 10]))))
           for _ in range(k)]
-    ag = [None if rng.random() < 0.5 else float(rng.choice([0.5, 1, 2, 3.7])) for _ in range(k)]
+    # (incl. a gain of exactly zero: a specified gain, x/0, not an unspecified one)
+    ag = [None if rng.random() < 0.5 else float(rng.choice([0.5, 1, 2, 3.7, 3.7, 0.3, 0.0])) for _ in range(k)]
     r = []
     for R in Rs:
         cands = [x for x in (256, 1000, 1023, 1024, 4096, 65536, 262144, R, R - 1, 3 * R) if x >= R // 4 and x > 0]
@@ -52,9 +53,9 @@ def same(a, b):
     if np.asarray(a).tobytes() != np.asarray(b).tobytes():
         return False
     if hasattr(a, 'range'):
-        ra = [list(map(float, x)) for x in a.range()]
-        rb = [list(map(float, x)) for x in b.range()]
-        return ra == rb
+        ra = np.array([list(map(float, x)) for x in a.range()])
+        rb = np.array([list(map(float, x)) for x in b.range()])
+        return ra.shape == rb.shape and np.array_equal(ra, rb, equal_nan=True)
     return True
 
 
